@@ -1,6 +1,8 @@
 (* statement pins and axiom audit for C02 (compiled on every check; regenerate BY HAND with driver/mkpins.py) *)
 From ChiaV.Base Require Import Bytes.
 From ChiaV.Clvm Require Import Sexp Ints.
+From ChiaV.Clvm Require Import IntsProofs LadderProofs.
+From ChiaV.Gen Require Import Ladders.
 From ChiaV.Cond Require Import Model Invariants.
 Open Scope N_scope.
 From ChiaV.Props Require Import C02.
@@ -16,3 +18,6 @@ Check C02_accepted_conserves :
             sp_coin_id s = H (sp_parent s ++ sp_ph s ++ canon_n (sp_amount s)) /\
             length (sp_parent s) = 32%nat /\ length (sp_ph s) = 32%nat /\ sp_amount s < 2 ^ 64) spends.
 Print Assumptions C02_accepted_conserves.
+Check C02_coin_id_function_hashes_canonical_amount :
+  forall v, v < 2 ^ 64 -> coin_amount_bytes v = canon_n v.
+Print Assumptions C02_coin_id_function_hashes_canonical_amount.
